@@ -48,8 +48,8 @@ struct Case {
 fn gen(ch: &mut Ch, _thorough: bool) -> Option<Case> {
     let row = ch.pick(ROWS.len());
     let named = ch.flag();
-    // 4 = `#[derive_ex(Deref)] #[derive_ex(DerefMut)]` stacked
-    let list = ch.pick(5);
+    // 4 = `#[derive_ex(Deref)] #[derive_ex(DerefMut)]` stacked, 5 = the same with the crate-qualified attribute path
+    let list = ch.pick(6);
     // (every generated case module now sits next to sibling modules named core / std / alloc, see runner.rs)
     let core_mod = false;
     let raw = ch.flag();
@@ -58,6 +58,9 @@ fn gen(ch: &mut Ch, _thorough: bool) -> Option<Case> {
         return None;
     }
     if core_mod && (raw || list == 3 || entry == Entry::Derive && named) {
+        return None;
+    }
+    if list == 5 && entry == Entry::Derive {
         return None;
     }
     if list == 3 && (!ROWS[row].0.contains('T') || ROWS[row].0.contains("?Sized") || ROWS[row].3.contains("Vec<")) {
@@ -69,8 +72,9 @@ fn gen(ch: &mut Ch, _thorough: bool) -> Option<Case> {
 fn build(c: &Case, tier: &str) -> XCase {
     let (g, wh, fty, selfty, cfty, ctor, mut_d, chk_f, mut_f, chk_r) = ROWS[c.row];
     let f = if c.named { if c.raw { "r#type" } else { "inner" } } else { "0" };
-    let list = ["Deref, DerefMut", "Deref", "DerefMut", "Deref, DerefMut, bound(T: ::core::marker::Copy)", "Deref)] #[derive_ex(DerefMut"][c.list];
+    let list = ["Deref, DerefMut", "Deref", "DerefMut", "Deref, DerefMut, bound(T: ::core::marker::Copy)", "Deref)] #[derive_ex(DerefMut", "Deref)] #[::derive_ex::derive_ex(DerefMut"][c.list];
     let head = match c.entry {
+        Entry::Attr if c.list == 5 => format!("#[::derive_ex::derive_ex({list})]"),
         Entry::Attr => format!("#[derive_ex({list})]"),
         Entry::Derive => format!("#[derive(Ex)]\n#[derive_ex({list})]"),
     };
@@ -78,6 +82,8 @@ fn build(c: &Case, tier: &str) -> XCase {
     let rep = |s: &str| s.replace(".F", &format!(".{f}"));
     let mut s = String::new();
     s.push_str("use derive_ex::{derive_ex, Ex};\nuse ::core::ops::{Deref, DerefMut};\n");
+    // a type that happens to be called like the const parameter of some rows
+    s.push_str("#[allow(non_camel_case_types, dead_code)] pub type N = u16;\n");
     if c.core_mod {
         s.push_str("#[allow(unused)] pub mod core { pub mod ops {} }\n");
     }
@@ -87,7 +93,7 @@ fn build(c: &Case, tier: &str) -> XCase {
         let ig = g.replace(" = u8", "").replace(" = 2", "");
         let tg = {
             // type arguments: names of the parameters
-            let names: Vec<String> = ig.trim_start_matches('<').trim_end_matches('>').split(',').filter(|p| !p.trim().is_empty()).map(|p| p.trim().trim_start_matches("const ").split(':').next().unwrap().trim().to_string()).collect();
+            let names: Vec<String> = ig.trim_start_matches('<').trim_end_matches('>').split(',').filter(|p| !p.trim().is_empty()).map(|p| { let n = p.trim().trim_start_matches("const ").split(':').next().unwrap().trim().to_string(); if p.trim().starts_with("const ") { format!("{{ {n} }}") } else { n } }).collect();
             if names.is_empty() { String::new() } else { format!("<{}>", names.join(", ")) }
         };
         s.push_str(&format!("impl{ig} Deref for X{tg} {wh} {{ type Target = {fty}; fn deref(&self) -> &{fty} {{ &self.{f} }} }}\n"));
